@@ -441,3 +441,32 @@ def run_ulp_boundaries(ctx):
                                                    "args": {k: [repr(x) for x in v] for k, v in kw.items()}, "impl": got, "spec": want})
                                     return
                 ctx.case(("ulp-boundary", N, j), True)
+
+
+def run_salt_alphabet(ctx):
+    """salts (and ids) holding a control or separator character — CR, TAB, VT, FF, NEL, LS, NUL, BOM, zero-width space, blanks at either end: a salt is any
+    characters between its quotes (other than a line feed), taken literally"""
+    from pyab_experiment.experiment_evaluator import ExperimentEvaluator
+    labels = "abcdefgh"
+    groups = ", ".join('"%s" weighted 1' % c for c in labels)
+    ws = ["1"] * len(labels)
+    for salt in ["\r", "a\rb", "\r\r", "\t", "\x0b", "\x0c", "\x85", "\u2028", "\u2029", "\x00", "\x1c", "\ufeff", "\u200b", " ", "  x ", "x\r", "\\r", "\\n", "\\", "//", "/*",
+                 # what a template engine, a format call or a %-substitution would expand
+                 "{{exp}}-v1", "}}", "{{", "{fields}", "{0}", "{}", "{salt}", "{key}", "%s", "%(u)s", "%%", "%d", "${u}", "$u", "{u}", "{{u}}", "\\{", "#{u}", "<%= u %>"]:
+        text = 'def e { salt: "%s" splitters: u return %s }' % (salt, groups)
+        try:
+            ev, _ = common.quiet(lambda: ExperimentEvaluator(text))
+        except Exception as ex:  # noqa
+            ctx.case(("control-salt", salt), True)
+            ctx.violation(f"an experiment whose salt is {salt!r} does not compile ({common.classify_exc(ex)})", {"text": text, "salt": salt})
+            return
+        for u in ["unit1", "", salt, "x" + salt, 7]:
+            got = common.outcome_of(lambda: ev(u=u))
+            h = gen.published_position(salt, ["u"], {"u": u})
+            want = {"g": {"s": labels[gen.spec_indices(ws, h)[0]]}}
+            ctx.case(("control-salt", salt, repr(u)), True)
+            ctx.count("control-salts")
+            if got != want:
+                ctx.violation(f"salt {salt!r}, id {u!r}: the evaluator answers {json.dumps(got)}; md5 of salt + id selects {json.dumps(want)}",
+                              {"text": text, "env": common.enc_env({"u": u}), "impl": got, "spec": want})
+                return
